@@ -464,9 +464,10 @@ def judge_wedge(a, impl):
 
 
 def judge_vi_check(a, impl):
-    """C20/C18 on the implementation alone: the hook is built iff 0 < p <= 1 and delta > 0"""
+    """C20/C18 on the implementation alone: the hook is built iff 0 < p <= 1 and 0 < delta <= MaxInt32 (a larger delta
+    cannot be honoured: delta seconds overflow time.Duration, D29)"""
     pn, pd, delta = int(a["pn"]), int(a["pd"]), int(a["delta"])
-    want = "ok" if (0 < pn <= pd and delta > 0) else "refused"
+    want = "ok" if (0 < pn <= pd and 0 < delta <= 2**31 - 1) else "refused"
     if impl != want:
         return f"hook options p={pn}/{pd} max_increase_delta={delta}: start-up answered '{impl}', the documented ranges demand '{want}'"
     return None
